@@ -822,6 +822,11 @@ func (h *histProp) Run(c *core.Case, st *core.Stats) []core.Violation {
 		st.Inc("config_rejected")
 		return nil
 	}
+	if c.Idx%4 == 2 && (h.id == "C01" || h.id == "C02" || h.id == "C03") {
+		// a new Block value for every Parse call, the earlier ones kept
+		ps.FreshBlocks = true
+		st.Inc("histories_with_a_new_block_per_parse")
+	}
 	obs := h.newObs(pc, ps, c, st)
 	class, msg, _ := RunHistory(ps, pc, &transObserver{obs, st})
 	if class != "" {
